@@ -63,6 +63,8 @@ F32, F64, I64, I32, BOOL = (
     ir.DataType.BOOL,
 )
 _NP = {F32: np.float32, F64: np.float64, I64: np.int64, I32: np.int32, BOOL: np.bool_}
+STR = ir.DataType.STRING  # only the string planters (extra features) create values of this type
+_NP[STR] = np.object_
 _FLOATS = (F32, F64)
 _NUMERIC = (F32, F64, I64, I32)
 FN_DOMAIN = "vf.fn"
@@ -141,11 +143,31 @@ EXTRA_FEATURES: dict[str, float] = {
     "fn_scope_name_reuse": 0.25,
     # the same for what a nested body of the function DECLARES: Loop-body inputs and subgraph initializers
     "fn_subgraph_formal_name_reuse": 0.12,
+    # added later - keep new entries at the end: choose_features draws in this order
+    # Constant nodes in the string forms (value_string, value_strings, value = STRING tensor), twins and near-twins
+    # of them, consumed by Identity / Shape / Gather / Concat (string graph outputs), also inside If branches
+    "const_strings": 0.25,
+    # STRING initializers: duplicates, near-duplicates (other content / the same bytes split differently / other
+    # shape), in the main graph and in a branch
+    "string_inits": 0.20,
+    # a function with trailing OPTIONAL formal inputs (used in optional operator positions / forwarded to a nested
+    # call / captured by a branch of the body); call sites pass fewer inputs than declared or "" in the middle
+    "fn_optional_inputs": 0.22,
+    # a function whose opset_imports hold a domain (ai.onnx.ml, used by its body; sometimes an unused one too) that
+    # the MODEL does not import
+    "fn_foreign_opset": 0.15,
+    # twin non-deterministic nodes without a seed (RandomNormal[Like], RandomUniform[Like], Multinomial), observed
+    # only through all(a == b), which is 0 with probability 1 for independent draws and 1 for one shared draw
+    "random_twins": 0.15,
+    # the same for Bernoulli and training-mode Dropout
+    "random_twins_unlisted": 0.08,
+    # Identity nodes between values whose declared shapes hold symbolic / unknown dimensions
+    "symbolic_dims": 0.12,
 }
 ALL_FEATURES: dict[str, float] = {**FEATURES, **EXTRA_FEATURES}
 _FN_FEATURES = ("fn", "fn_attr", "fn_default_used", "fn_nested", "fn_overload")
 DUPLICATE_FEATURES = frozenset(
-    {"cse_rename_shadow", "near_dup_const_rank", "dup_init_is_input", "dup_expr", "near_dup_attr", "near_dup_outcount", "near_dup_default", "signed_zero", "dup_init",
+    {"const_strings", "string_inits", "random_twins", "random_twins_unlisted", "cse_rename_shadow", "near_dup_const_rank", "dup_init_is_input", "dup_expr", "near_dup_attr", "near_dup_outcount", "near_dup_default", "signed_zero", "dup_init",
      "near_dup_init_dtype", "near_dup_init_shape"}
 )
 
@@ -1496,6 +1518,378 @@ class _Builder:
                                body_hook=lambda s: [self.emit(s, "Neg", [s.inputs[0]])[0]])
         self.observe += self.gen_call(self.main, rng, fn, inputs=[self._x(rng)]) or []
 
+    # ---- planters added for C05 reach (EXTRA features): strings, optional function inputs, foreign opsets,
+    # ---- non-deterministic twins, symbolic dimensions.  Everything they create is taken out of the pool again
+    # ---- (``_hide``), so no other planter computes with it
+    def _hide(self, sc: _Scope, tvs: Sequence[_TV]) -> list[_TV]:
+        for t in tvs:
+            if t in sc.pool:
+                sc.pool.remove(t)
+        return list(tvs)
+
+    _WORDS = ("a", "", "bcd", "hello world", "x y", "0", "Zq", "tab\tsep", "UPPER", "a,b", "ab", "c", "bc")
+
+    def _string_tensor(self, vals: Sequence[str], shape, name: str | None, rng) -> Any:
+        data = [v.encode("utf-8") for v in vals]
+        if rng.random() < 0.3:  # a proto-backed tensor implementation
+            return ir.serde.deserialize_tensor(onnx.helper.make_tensor(name or "", onnx.TensorProto.STRING, list(shape), data))
+        return ir.StringTensor(data, shape=ir.Shape([int(d) for d in shape]), name=name)
+
+    def str_const(self, sc: _Scope, rng, vals, form: str, shape=None, name: str | None = None) -> _TV:
+        """A Constant node in a string form: ``value_string`` (vals: str), ``value_strings`` (vals: list of str) or
+        ``value`` (a STRING tensor of ``shape``)."""
+        if form == "value_string":
+            shape, attr = (), ir.AttrString("value_string", vals)
+        elif form == "value_strings":
+            shape, attr = (len(vals),), ir.AttrStrings("value_strings", list(vals))
+        else:
+            shape = (len(vals),) if shape is None else tuple(shape)
+            attr = ir.AttrTensor("value", self._string_tensor(vals, shape, self.fresh("cs"), rng))
+        return self._hide(sc, self.emit(sc, "Constant", [], {attr.name: attr}, [(STR, shape)], names=[name] if name else None))[0]
+
+    def add_str_init(self, sc: _Scope, rng, vals: Sequence[str], shape, name: str | None = None) -> _TV:
+        name = name or self.fresh("ws")
+        v = ir.Value(name=name, const_value=self._string_tensor(vals, shape, name, rng))
+        self._set_type(v, STR, shape, required=True)
+        tv = _TV(v, STR, shape, "init")
+        sc.inits.append(tv)
+        return tv  # not in the pool
+
+    def _string_consumers(self, sc: _Scope, rng, dec, c: _TV, typed: bool = False) -> list[_TV]:
+        """1-2 consumers of a string value: Identity, Shape, Gather (rank 1), Concat with itself (rank 1), Reshape."""
+        menu = ["identity", "identity", "shape"]
+        if len(c.shape) == 1 and c.shape[0] >= 1:
+            menu += ["gather", "gather", "concat"]
+        if c.size >= 2:
+            menu += ["reshape"]
+        outs: list[_TV] = []
+        for kind in dec.sample(menu, dec.choice([1, 1, 2])):
+            if kind == "identity":
+                outs += self.emit(sc, "Identity", [c], None, [(STR, c.shape)], typed=typed)
+            elif kind == "shape":
+                outs += self.emit(sc, "Shape", [c], None, [(I64, (len(c.shape),))], typed=typed)
+            elif kind == "gather":
+                n = c.shape[0]
+                idx = [n - 1, 0] if dec.random() < 0.6 else [dec.randrange(n)]
+                i = self._hide(sc, [self.const(sc, rng, I64, (len(idx),), np.array(idx, np.int64), form=dec.choice(["value", "value_ints"]))])[0]
+                outs += self.emit(sc, "Gather", [c, i], None, [(STR, (len(idx),))], typed=typed)
+            elif kind == "concat":
+                outs += self.emit(sc, "Concat", [c, c], {"axis": 0}, [(STR, (2 * c.shape[0],))], typed=typed)
+            else:
+                shp = (c.size, 1) if len(c.shape) == 1 else (c.size,)
+                i = self._hide(sc, [self.const(sc, rng, I64, (len(shp),), np.array(shp, np.int64), form="value_ints")])[0]
+                outs += self.emit(sc, "Reshape", [c, i], None, [(STR, shp)], typed=typed)
+        return self._hide(sc, outs)
+
+    def plant_const_strings(self, rng):
+        dec = random.Random(rng.random())  # variant decisions: independent of pool sizes
+        m = self.main
+        words = list(self._WORDS) + (["héllo"] if dec.random() < 0.08 else [])  # (a non-ASCII string, seldom)
+
+        def strs(n):
+            return [dec.choice(words) for _ in range(n)]
+
+        def one(sc, form, typed=False):
+            if form == "value_string":
+                return self.str_const(sc, rng, dec.choice(words), form)
+            if form == "value_strings":
+                return self.str_const(sc, rng, strs(dec.choice([1, 2, 3, 3, 16, 17])), form)
+            shape = dec.choice([(2,), (3,), (2, 2), (16,), ()])
+            return self.str_const(sc, rng, strs(int(np.prod(shape)) if shape else 1), form, shape=shape)
+        for form in dec.sample(["value_string", "value_strings", "value_strings", "value"], dec.randint(2, 4)):
+            c = one(m, form)
+            self.observe += self._string_consumers(m, rng, dec, c)
+            if dec.random() < 0.2:  # the Constant output itself as a graph output (must not be lifted)
+                self.observe.append(c)
+        # twins and near-twins (CSE keys on STRING / STRINGS attribute values)
+        if dec.random() < 0.6:
+            form = dec.choice(["value_string", "value_strings", "value_strings", "value"])
+            n = dec.choice([2, 3, 16])
+            base = strs(n)
+            other = list(base)
+            if dec.random() < 0.6:  # a near-twin: one element differs / the same bytes split differently
+                k = dec.randrange(n)
+                other[k] = base[k] + "x" if dec.random() < 0.5 else ""
+                if other == base:
+                    other[k] = "y"
+            for vals in (base, other):
+                c = self.str_const(m, rng, vals[0] if form == "value_string" else vals, form)
+                self.observe += self._hide(m, self.emit(m, "Identity", [c], None, [(STR, c.shape)]))
+        if dec.random() < 0.3:  # string constants inside If branches; the branches return strings
+            n = dec.choice([2, 3, 16])
+
+            def hook(s):
+                c = self.str_const(s, rng, strs(n), dec.choice(["value_strings", "value_strings", "value"]))
+                return self._hide(s, self.emit(s, "Identity", [c], None, [(STR, (n,))], typed=True))
+            self.observe += self._hide(m, self.gen_if(m, rng, then_hook=hook, else_hook=hook, out_types=[(STR, (n,))]))
+
+    def plant_string_inits(self, rng):
+        dec = random.Random(rng.random())  # variant decisions: independent of pool sizes
+        m = self.main
+        words = [w for w in self._WORDS if w]
+
+        def family(sc, typed=False):
+            """Initializers that agree in content, or nearly: same strings (duplicates), one string changed, the same
+            bytes split differently, the same strings under another shape."""
+            n = dec.choice([2, 2, 3, 4])
+            base = [dec.choice(words) for _ in range(n)]
+            variants = [("dup", base, (n,))] * dec.choice([1, 2])
+            pool = [("changed", base[:-1] + [base[-1] + "z"], (n,)),
+                    ("resplit", [base[0] + base[1][:1], base[1][1:]] + base[2:], (n,)),
+                    ("reshaped", base, (n, 1)), ("reshaped", base, (1, n))]
+            variants += dec.sample(pool, dec.choice([0, 1, 1, 2]))
+            dec.shuffle(variants)
+            made = []
+            for _, vals, shape in [("base", base, (n,))] + variants:
+                w = self.add_str_init(sc, rng, vals, shape)
+                made += self._string_consumers(sc, rng, dec, w, typed=typed)[:1] if dec.random() < 0.5 else \
+                    self._hide(sc, self.emit(sc, "Identity", [w], None, [(STR, shape)], typed=typed))
+            return made
+        self.observe += family(m)
+        if dec.random() < 0.35:  # the same inside a branch (deduplication per graph; lifting to the main graph)
+            got: list = []
+
+            def hook(s):
+                outs = family(s, typed=True)
+                keep = [t for t in outs if t.dt == STR][:2] or outs[:1]
+                got.append([(t.dt, t.shape) for t in keep])
+                return keep
+
+            def other(s):
+                outs = []
+                for dt, shape in got[0]:
+                    if dt == STR:
+                        w = self.add_str_init(s, rng, [dec.choice(words) for _ in range(int(np.prod(shape)))], shape)
+                        outs += self._hide(s, self.emit(s, "Identity", [w], None, [(STR, shape)], typed=True))
+                    else:
+                        c = self._hide(s, [self.const(s, rng, dt, shape)])[0]
+                        outs += self._hide(s, self.emit(s, "Identity", [c], None, [(dt, shape)], typed=True))
+                return outs
+            cond = self.bool_scalar(m, rng)
+            # (the then-branch is built first: its output types decide those of the else-branch)
+            child = _Scope("branch", m)
+            then_outs = hook(child)
+            for t in then_outs:
+                self._set_type(t.v, t.dt, t.shape, required=True)
+            g_then = self.make_graph(child, then_outs, self.fresh("then_g"))
+            child = _Scope("branch", m)
+            else_outs = other(child)
+            for t in else_outs:
+                self._set_type(t.v, t.dt, t.shape, required=True)
+            g_else = self.make_graph(child, else_outs, self.fresh("else_g"))
+            self.observe += self._hide(m, self.emit(m, "If", [cond], {"then_branch": g_then, "else_branch": g_else}, got[0]))
+
+    def plant_fn_optional_inputs(self, rng):
+        """F(x, lo, hi): ``lo`` and ``hi`` are used only where an operator input is optional (Clip's min / max),
+        directly, through a nested call that forwards them, or captured by a branch of the body.  Call sites omit
+        trailing inputs, pass "" in the middle, or pass everything; also from a wrapper function and from a branch."""
+        dec = random.Random(rng.random())  # variant decisions: independent of pool sizes
+        m = self.main
+        T, S = (F32, (2, 3)), (F32, ())
+        kind = dec.choice(["direct", "direct", "nested", "nested", "branch"])
+        pre = dec.choice(["Abs", "Neg", "Relu", None])
+
+        def clip_body(s):
+            x, lo, hi = s.inputs[:3]
+            t = self.emit(s, pre, [x])[0] if pre else x
+            return [self.emit(s, "Clip", [t, lo, hi])[0]]
+        if kind == "direct":
+            f = self.gen_function(rng, in_types=[T, S, S], with_attrs=False, body_hook=clip_body)
+        elif kind == "nested":
+            inner = self.gen_function(rng, in_types=[T, S, S], with_attrs=False, body_hook=clip_body)
+            partial = dec.random() < 0.4  # the nested call itself passes fewer inputs than ``inner`` declares
+
+            def outer_body(s):
+                x, lo, hi = s.inputs[:3]
+                t = self.emit(s, dec.choice(["Abs", "Neg"]), [x])[0]
+                y = self.gen_call(s, rng, inner, inputs=[t, lo] if partial else [t, lo, hi])[0]
+                return [self.emit(s, "Add", [y, x])[0]]
+            f = self.gen_function(rng, in_types=[T, S, S], with_attrs=False, body_hook=outer_body)
+        else:
+            def branch_body(s):
+                x, lo, hi, cond = s.inputs[:4]
+                hooks = [lambda b: [self.emit(b, "Clip", [x, lo, hi], typed=True)[0]],
+                         lambda b: [self.emit(b, "Neg", [x], typed=True)[0]]]
+                if dec.random() < 0.3:
+                    hooks.reverse()
+                # (gen_if would draw a condition of its own: the formal one is put in place by hand)
+                graphs = []
+                for which, hook in zip(("then", "else"), hooks):
+                    child = _Scope("branch", s)
+                    outs = hook(child)
+                    graphs.append(self.make_graph(child, outs, self.fresh(which + "_g")))
+                return [self.emit(s, "If", [cond], {"then_branch": graphs[0], "else_branch": graphs[1]}, [T])[0]]
+            f = None  # built below: the condition must be the LAST input so that lo/hi are not trailing ... see call sites
+            f = self.gen_function(rng, in_types=[T, S, S, (BOOL, ())], with_attrs=False, body_hook=branch_body)
+        x = self._x(rng)
+        lo = self._hide(m, [self.const(m, rng, F32, (), np.array(dec.choice([-1.25, -0.5, 0.0]), np.float32))])[0] if dec.random() < 0.6 \
+            else self.add_init(m, rng, F32, (), np.array(dec.choice([-1.25, -0.5, 0.0]), np.float32))
+        hi = self._hide(m, [self.const(m, rng, F32, (), np.array(dec.choice([0.75, 1.5, 2.0]), np.float32))])[0] if dec.random() < 0.6 \
+            else self.add_init(m, rng, F32, (), np.array(dec.choice([0.75, 1.5, 2.0]), np.float32))
+        if kind == "branch":
+            cond = self.bool_scalar(m, rng)
+            forms = [[x, None, None, cond], [x, lo, None, cond], [x, None, hi, cond], [x, lo, hi, cond]]
+        else:
+            forms = [[x], [x, lo], [x, None, hi], [x, lo, hi], [x, None, None], [x, lo, None], [x, None]]
+        chosen = dec.sample(forms, min(len(forms), dec.choice([2, 3, 3, 4])))
+        if dec.random() < 0.35:  # only call sites the reference evaluator can run as well (all inputs listed)
+            chosen = [c for c in forms if len(c) == len(f.in_types)][: dec.choice([2, 3])]
+        in_branch = dec.random() < 0.3
+        for k, ins in enumerate(chosen):
+            if in_branch and k == 0:
+                self.observe += self._hide(m, self.gen_if(
+                    m, rng, then_hook=lambda b, ins=ins: [self.gen_call(b, rng, f, inputs=ins, typed=True)[0]], out_types=[T]))
+            else:
+                self.observe += self._hide(m, self.gen_call(m, rng, f, inputs=ins) or [])
+        if kind != "branch" and dec.random() < 0.35:
+            # a wrapper H(x, a): calls F with fewer inputs than F declares / with "" in the middle; H itself is
+            # called with and without ``a``
+            mid = dec.random() < 0.5
+
+            def wrap_body(s):
+                xx, a = s.inputs[:2]
+                y = self.gen_call(s, rng, f, inputs=[xx, None, a] if mid else [xx, a])[0]
+                return [self.emit(s, "Neg", [y])[0]]
+            h = self.gen_function(rng, in_types=[T, S], with_attrs=False, body_hook=wrap_body)
+            for ins in dec.sample([[x], [x, hi if mid else lo], [x, None]], 2):
+                self.observe += self._hide(m, self.gen_call(m, rng, h, inputs=ins) or [])
+
+    def plant_fn_foreign_opset(self, rng):
+        """A function whose body uses operators of ``ai.onnx.ml`` and whose opset_imports name that domain (and
+        sometimes an unused one); the model's opset_imports do not.  Called from the main graph, from a branch, or
+        only through another function."""
+        dec = random.Random(rng.random())  # variant decisions: independent of pool sizes
+        m = self.main
+        T = (F32, (2, 3))
+        ML = "ai.onnx.ml"
+        threshold = dec.choice([0.25, -0.5, 1.0])
+        scale, offset = dec.choice([2.0, 0.5, -1.0]), dec.choice([0.5, 0.0, -2.0])
+        which = dec.choice(["bin", "scaler", "both", "both"])
+
+        def body(s):
+            x = s.inputs[0]
+            t = x
+            if which in ("bin", "both"):
+                t = self.emit(s, "Binarizer", [t], {"threshold": threshold}, domain=ML)[0]
+            if which in ("scaler", "both"):
+                t = self.emit(s, "Scaler", [t], {"offset": [offset], "scale": [scale]}, domain=ML)[0]
+            return [self.emit(s, dec.choice(["Add", "Sub", "Mul"]), [t, x])[0]]
+        f = self.gen_function(rng, in_types=[T], with_attrs=False, body_hook=body)
+        f.function.opset_imports[ML] = 3
+        if dec.random() < 0.4:
+            f.function.opset_imports["vf.other"] = 2  # imported by the function, used by nothing
+        target = f
+        if dec.random() < 0.3:  # only reached through a wrapper (which does not import the domain itself)
+            def wrap(s):
+                y = self.gen_call(s, rng, f, inputs=[s.inputs[0]])[0]
+                return [self.emit(s, "Neg", [y])[0]]
+            target = self.gen_function(rng, in_types=[T], with_attrs=False, body_hook=wrap)
+        x = self._x(rng)
+        where = dec.choice(["main", "main", "branch", "both"])
+        if where in ("main", "both"):
+            self.observe += self._hide(m, self.gen_call(m, rng, target, inputs=[x]) or [])
+        if where in ("branch", "both"):
+            self.observe += self._hide(m, self.gen_if(
+                m, rng, then_hook=lambda b: [self.gen_call(b, rng, target, inputs=[x], typed=True)[0]], out_types=[T]))
+
+    def _all_equal(self, sc: _Scope, a: _TV, b: _TV) -> _TV:
+        """int64 scalar: 1 when every element of ``a`` equals the element of ``b``, else 0."""
+        e = self._hide(sc, self.emit(sc, "Equal", [a, b], None, [(BOOL, a.shape)]))[0]
+        i = self._hide(sc, self.emit(sc, "Cast", [e], {"to": int(I64.value)}, [(I64, a.shape)]))[0]
+        return self._hide(sc, self.emit(sc, "ReduceMin", [i], {"keepdims": 0}, [(I64, ())]))[0]
+
+    def _random_pair(self, sc: _Scope, rng, dec, op: str, seeded: bool = False) -> _TV:
+        """Two identical nodes of a non-deterministic operator (no seed unless ``seeded``) and all(a == b)."""
+        attrs: dict = {}
+        ins: list = []
+        out = (F32, (4, 4))
+        if op in ("RandomNormal", "RandomUniform"):
+            attrs["shape"] = [4, 4]
+            if op == "RandomNormal" and dec.random() < 0.5:
+                attrs["scale"] = 2.0
+            if op == "RandomUniform" and dec.random() < 0.5:
+                attrs.update(low=-1.0, high=2.0)
+        elif op in ("RandomNormalLike", "RandomUniformLike"):
+            ins = [self._hide(sc, [self.const(sc, rng, F32, (4, 4), form="value")])[0]]
+        elif op == "Multinomial":
+            ins = [self._hide(sc, [self.const(sc, rng, F32, (1, 3), np.zeros((1, 3), np.float32), form="value")])[0]]
+            attrs["sample_size"] = 40
+            out = (I32, (1, 40))
+        elif op == "Bernoulli":
+            ins = [self._hide(sc, [self.const(sc, rng, F32, (64,), np.full((64,), 0.5, np.float32), form="value")])[0]]
+            out = (F32, (64,))
+        else:  # Dropout in training mode
+            x = self._hide(sc, [self.const(sc, rng, F32, (64,), np.ones((64,), np.float32), form="value")])[0]
+            ratio = self._hide(sc, [self.const(sc, rng, F32, (), np.array(0.5, np.float32), form="value_float")])[0]
+            training = self._hide(sc, [self.const(sc, rng, BOOL, (), np.array(True), form="value")])[0]
+            ins = [x, ratio, training]
+            out = (F32, (64,))
+        if seeded:
+            attrs["seed"] = 3 if op == "Dropout" else 3.0
+        a = self._hide(sc, self.emit(sc, op, ins, dict(attrs), [out]))[0]
+        b = self._hide(sc, self.emit(sc, op, ins, dict(attrs), [out]))[0]
+        return self._all_equal(sc, a, b)
+
+    def _plant_random(self, rng, ops: Sequence[str]):
+        dec = random.Random(rng.random())  # variant decisions: independent of pool sizes
+        m = self.main
+        for op in dec.sample(list(ops), min(len(ops), dec.choice([1, 2]))):
+            where = dec.choice(["main", "main", "main", "fn"])
+            seeded = dec.random() < 0.12
+            if where == "main":
+                flag = self._random_pair(m, rng, dec, op, seeded)
+                self.observe.append(flag)
+            else:  # the twins sit in a function body (merged only after the body has been inlined)
+                def body(s, op=op, seeded=seeded):
+                    flag = self._random_pair(s, rng, dec, op, seeded)
+                    z = self.emit(s, "Mul", [s.inputs[0], self._hide(s, [self.const(s, rng, I64, (), np.array(0, np.int64))])[0]], None, [(I64, ())])[0]
+                    return [self.emit(s, "Add", [flag, z], None, [(I64, ())])[0]]
+                f = self.gen_function(rng, in_types=[(I64, ())], with_attrs=False, body_hook=body)
+                arg = self._hide(m, [self.const(m, rng, I64, (), np.array(dec.choice([1, 2, 5]), np.int64))])[0]
+                self.observe += self._hide(m, self.gen_call(m, rng, f, inputs=[arg]) or [])
+
+    def plant_random_twins(self, rng):
+        ops = ["RandomNormal", "RandomUniform", "RandomNormalLike", "RandomUniformLike"]
+        if random.Random(rng.random()).random() < 0.15:
+            ops = ["Multinomial"]  # (no reference implementation: onnxruntime only)
+        self._plant_random(rng, ops)
+
+    def plant_random_twins_unlisted(self, rng):
+        self._plant_random(rng, ["Bernoulli", "Dropout"])
+
+    def plant_symbolic_dims(self, rng):
+        """``y = Identity(a)`` where the declared shapes of ``a`` and ``y`` hold symbolic or unknown dimensions in
+        different places (all of them consistent with the real shape (2, 3)); ``y`` is an intermediate value or a
+        graph output (which then keeps its symbolic declaration)."""
+        dec = random.Random(rng.random())  # variant decisions: independent of pool sizes
+        m = self.main
+
+        def shape(kind: str) -> ir.Shape:
+            if kind == "named":
+                return ir.Shape([self.fresh("vfN"), 3])
+            if kind == "named2":
+                return ir.Shape([2, self.fresh("vfM")])
+            if kind == "unknown":
+                return ir.Shape([None, 3])
+            if kind == "both":
+                return ir.Shape([self.fresh("vfN"), self.fresh("vfM")])
+            return ir.Shape([2, 3])
+        kinds = ["named", "named2", "unknown", "both", "concrete"]
+        for _ in range(dec.choice([1, 2])):
+            a = self.emit(m, dec.choice(["Neg", "Abs"]), [self._x(rng)])[0]
+            y = self.emit(m, "Identity", [a])[0]
+            self._hide(m, [a, y])
+            ka, ky = dec.choice(kinds), dec.choice(kinds[:4])
+            for v, k in ((a.v, ka), (y.v, ky)):
+                v.type, v.shape = ir.TensorType(F32), shape(k)
+            if dec.random() < 0.5:
+                self.observe += self._hide(m, self.emit(m, "Abs", [y]))
+                if dec.random() < 0.4:
+                    self.observe.append(a)
+            else:
+                self.observe.append(y)
+                self.symbolic_outputs[id(y.v)] = y.v.shape
+
     # ---- assembly --------------------------------------------------------------------------------
     PLANT_ORDER = [
         "consts_all_forms", "dup_expr", "near_dup_attr", "near_dup_outcount", "near_dup_default", "signed_zero",
@@ -1504,13 +1898,16 @@ class _Builder:
         "subgraph_init", "sibling_init_name", "optional_io", "bn_training", "fn_alias", "fn_alias_branch",
         "fn_names_shadow", "fn_named_identity", "unused_node", "unused_fn", "unused_opset", "unused_init",
         "near_dup_const_rank", "dup_init_is_input", "fn_called_from_subgraph",
-        "fn_attr_forward_renamed", "fn_scope_name_reuse", "fn_subgraph_formal_name_reuse", "out_alias_input", "out_init", "out_dup",
+        "fn_attr_forward_renamed", "fn_scope_name_reuse", "fn_subgraph_formal_name_reuse",
+        "const_strings", "string_inits", "fn_optional_inputs", "fn_foreign_opset", "random_twins", "random_twins_unlisted",
+        "symbolic_dims", "out_alias_input", "out_init", "out_dup",
     ]
 
     def build(self) -> tuple[ir.Model, dict]:
         rng, m = self.rng, self.main
         self.init_inputs: list[_TV] = []
         self.dup_outputs = 0
+        self.symbolic_outputs: dict[int, ir.Shape] = {}  # graph outputs that keep a symbolic declared shape
         # functions first (call sites need them)
         if any(f in self.feats for f in _FN_FEATURES):
             for i in range(rng.randint(1, 3)):
@@ -1559,6 +1956,8 @@ class _Builder:
             outs.insert(rng.randrange(len(outs) + 1), rng.choice(outs))
         for t in outs:
             self._set_type(t.v, t.dt, t.shape, required=True)
+            if id(t.v) in self.symbolic_outputs:
+                t.v.shape = self.symbolic_outputs[id(t.v)]
         inputs = list(m.inputs)
         for w in self.init_inputs:
             inputs.insert(rng.randrange(1, len(inputs) + 1), w)
@@ -1898,12 +2297,27 @@ def run_ort(model_proto, inputs: Sequence[np.ndarray]) -> RunResult:
 RUNNERS = {"ref": run_reference_many, "ort": run_ort_many}
 
 
+def _as_bytes_list(x: np.ndarray) -> list[bytes]:
+    return [v if isinstance(v, bytes) else str(v).encode("utf-8") for v in x.ravel().tolist()]
+
+
 def same_outputs(a: Sequence[np.ndarray], b: Sequence[np.ndarray]) -> str | None:
     """None when the two positional output lists are exactly equal (count, dtype, shape, values with
     NaN == NaN; +0.0 == -0.0 as in IEEE comparison); otherwise a description of the first difference."""
     if len(a) != len(b):
         return f"{len(a)} outputs vs {len(b)}"
     for i, (x, y) in enumerate(zip(a, b)):
+        if x.dtype.kind in "OUS" or y.dtype.kind in "OUS":
+            # string tensors: an evaluator hands them out as str, bytes or object arrays depending on where the
+            # value came from (Constant attribute / initializer) - compared as UTF-8 bytes, element by element
+            if not (x.dtype.kind in "OUS" and y.dtype.kind in "OUS"):
+                return f"position {i}: dtype {x.dtype} vs {y.dtype}"
+            if x.shape != y.shape:
+                return f"position {i}: shape {x.shape} vs {y.shape}"
+            xs, ys = _as_bytes_list(x), _as_bytes_list(y)
+            if xs != ys:
+                return f"position {i}: strings {xs[:6]} vs {ys[:6]}"
+            continue
         if x.dtype != y.dtype:
             return f"position {i}: dtype {x.dtype} vs {y.dtype}"
         if x.shape != y.shape:
@@ -1939,12 +2353,12 @@ def admit(model: ir.Model, info: dict, inputs_rng: random.Random, k_inputs: int 
     if expected:
         # generator self-check.  onnxruntime: dtype and shape; reference evaluator: dtype only (probe:
         # its Loop concatenates scan outputs instead of stacking them - consistently, before and after)
-        want = [(d.replace("bool_", "bool"), s) for d, s in expected]
+        want = [(d.replace("bool_", "bool").replace("object_", "string"), s) for d, s in expected]
         for e, rs in baseline.items():
             for r in rs:
                 if not r.ok:
                     continue
-                got = [(o.dtype.name, list(o.shape)) for o in r.outputs]
+                got = [("string" if o.dtype.kind in "OUS" else o.dtype.name, list(o.shape)) for o in r.outputs]
                 if [g[0] for g in got] != [w[0] for w in want] or (e == "ort" and got != want):
                     return None, "type_tracking"
     case = Case(model, proto, info, inputs, baseline)
